@@ -218,6 +218,23 @@ class Parser:
             if con.whence != 0 and not callable(con.whence):
                 raise Unsupported("Seek with whence != 0")
             return at, at
+        if isinstance(con, C.Pointer):
+            # parse the subconstruct at an absolute stream position (negative: counted from the end of the stream), then
+            # carry on where we were
+            off = self.tr(con.offset, ctx) if isinstance(con.offset, ExprMixin) or callable(con.offset) else con.offset
+            if is_concrete_int(off) and off < 0:
+                if self.stream.limit is None:
+                    raise Unsupported("Pointer from the end of a stream of unknown length")
+                at = mk_int(z3.simplify(as_int_term(self.stream.limit) + off))
+                if not self.it.path.entails(as_int_term(at) >= 0):
+                    if not self.it.truth(mk_bool(as_int_term(at) >= 0)):
+                        raise C.StreamError("seek before the start of the stream")
+            elif is_concrete_int(off) or isinstance(off, Sym):
+                at = off
+            else:
+                raise Unsupported(f"Pointer offset {off!r}")
+            v, _ = self.parse(con.subcon, at, ctx, path, chain)
+            return v, pos
         raise Unsupported(f"construct {type(con).__name__} at {path}")
 
     def parse_array(self, con, pos, ctx, path):
@@ -263,7 +280,7 @@ class Parser:
             p_i = mk_int(as_int_term(pos) + as_int_term(i) * esize)
             # elements at a concrete index (e.g. the single map projection record) are recorded leaf by leaf, so that their
             # spare areas are known; elements at a symbolic index are not (their areas are covered through the element terms)
-            concrete = is_concrete_int(i) and outer.record_leaves
+            concrete = is_concrete_int(i) and outer.record_leaves and is_concrete_int(esize)  # fixed-size elements only
             prs = Parser(it, Stream(outer.stream.fid, outer.stream.base, None), record_leaves=concrete,
                          enum_mode=outer.enum_mode, enum_other=outer.enum_other)
             prs.unchecked = 1  # availability of the whole array was checked above
@@ -295,6 +312,9 @@ class Parser:
             return v  # other code: passes through unchanged (EnumInteger / raw value)
         if self.enum_mode == "known":
             it.path.assume(known)  # precondition (recorded by the caller as an assumption of the run)
+            if "!" not in str(known):
+                # part of the record contract: the set of codes the reader admits must be the specified one
+                it.path.__dict__.setdefault("wf_assumptions", []).append(("Enum", ".".join(map(str, path)), known))
         elif not it.path.entails(known):
             if not it.truth(mk_bool(known)):
                 return v
